@@ -205,9 +205,11 @@ impl SerializeStruct for RecStruct {
 #[derive(Clone, Debug)]
 pub enum Script {
     Seq(Vec<f64>),
-    Map(Vec<(u8, f64)>), // key: 0 = "hi", 1 = "lo", 2 = unknown
+    Map(Vec<(u8, f64)>), // key: index into KEYS; 0 = "hi", 1 = "lo", everything else is an unknown field
 }
-const KEYS: [&str; 3] = ["hi", "lo", "mid"];
+/// "hi", "lo", a plainly unknown name, and near misses of the two field names (case, padding, prefixes, suffixes,
+/// look-alikes): every one of them except the first two is an unknown field
+const KEYS: [&str; 24] = ["hi", "lo", "mid", "HI", "Hi", "hI", "LO", "Lo", "lO", "hi ", " hi", "lo ", "h", "l", "high", "low", "hi_", "_lo", "", "hilo", "hi\0", "lo\0", "h\u{456}", "1o"];
 
 fn run_script(s: &Script) -> Result<Result<TF, String>, String> {
     api(|| match s {
@@ -232,7 +234,7 @@ fn script_spec(s: &Script) -> (Option<[f64; 2]>, bool) {
         Script::Map(v) => {
             let his: Vec<f64> = v.iter().filter(|e| e.0 == 0).map(|e| e.1).collect();
             let los: Vec<f64> = v.iter().filter(|e| e.0 == 1).map(|e| e.1).collect();
-            let unk = v.iter().any(|e| e.0 == 2);
+            let unk = v.iter().any(|e| e.0 >= 2);
             if !unk && his.len() == 1 && los.len() == 1 && dd_valid(his[0], los[0]) {
                 (Some([his[0], los[0]]), false)
             } else {
@@ -388,8 +390,20 @@ pub fn run(r: &mut Runner) {
             }
         }
     }
+    // near misses of the field names: {near: a, lo: b}, {hi: a, near: b}, {near: a, near: b}, {hi: a, lo: b, near: c}, {near: c, hi: a, lo: b}
+    for k in 3..KEYS.len() as u8 {
+        for (a, b) in [(1.0, 2f64.powi(-60)), (1.0, 0.0), (-3.5, 2f64.powi(-55))] {
+            scripts.push(Script::Map(vec![(k, a), (1, b)]));
+            scripts.push(Script::Map(vec![(0, a), (k, b)]));
+            scripts.push(Script::Map(vec![(1, b), (k, a)]));
+            scripts.push(Script::Map(vec![(k, a), (k, b)]));
+            scripts.push(Script::Map(vec![(0, a), (1, b), (k, 7.0)]));
+            scripts.push(Script::Map(vec![(k, 7.0), (0, a), (1, b)]));
+            scripts.push(Script::Map(vec![(k, a)]));
+        }
+    }
     let ns = scripts.len();
-    r.notes.push(format!("{} environment scripts: all sequences of 0..3 elements and all maps of 0..3 entries over keys {{hi, lo, unknown}} in every order, values from a {}-element f64 alphabet (valid pair, tie with odd/even high word, overlapping, +-0, subnormal, +-inf, NaN)", ns, na));
+    r.notes.push(format!("{} environment scripts: all sequences of 0..3 elements and all maps of 0..3 entries over keys {{hi, lo, unknown}} in every order, plus maps using 21 near misses of the field names (case variants, padding, prefixes, look-alikes), values from a {}-element f64 alphabet (valid pair, tie with odd/even high word, overlapping, +-0, subnormal, +-inf, NaN)", ns, na));
     r.add_sample(json!({"script": format!("{:?}", scripts[ns / 2])}));
     r.add_sample(json!({"script": format!("{:?}", scripts[ns - 7])}));
     r.par("deserialize: environment scripts", ns.div_ceil(1024), ns as u64, |c, l| {
